@@ -335,6 +335,10 @@ def gen_policy(rng, uid, inq, kind, stag='<', etag='>', effect=None, hit=None):
                     es[i] = gen_attr_elem(rng, what, inq, hit=True)
                 else:
                     es[i] = ('R', _true_rule(rng, what, inq))
+                    if rng.random() < 0.05:
+                        # the deciding rule under many levels of logic rules (same meaning): a persistence path that
+                        # truncates or flattens deep structures changes which inquiries the stored policy matches
+                        es[i] = ('R', deep_wrap(rng, es[i][1]))
         p[fld] = es
     ctx = []
     if rng.random() < 0.4:
@@ -344,6 +348,8 @@ def gen_policy(rng, uid, inq, kind, stag='<', etag='>', effect=None, hit=None):
             if keys and rng.random() < 0.8:
                 k = pick(rng, keys)
                 rule = _true_rule(rng, qctx[k], inq) if rng.random() < 0.6 else gen_rule(rng, qctx[k], inq, 1)
+                if rng.random() < 0.04:
+                    rule = deep_wrap(rng, rule)
             else:
                 k = pick(rng, KEYS)
                 rule = gen_rule(rng, gen_atom(rng), inq, 1)
